@@ -1193,35 +1193,14 @@ func (c *compiler) evalIndexCallee(rv reflect.Value, node *ast.IndexExpression) 
 		c.ctx.Set(k, v)
 	}
 
-	//The key here is needed to set the object in ctx for later evaluation
-	//For example, if this is a nested object person.Name[0]
-	//then we can set the value of Name[0] to person.Name
-	//As the evalIdent will look for that object by person.Name
-	//If key doesn't contain "." this means we got person[0].Name[0]
-	//If key does contain "." then indexed field that needs to be accessed will be set in Node.left and Node.Callee
+	// The indexed element is bound under the name the rest of the path looks it
+	// up under. The parser fixed that name when it hung the rest of the path off
+	// the element (the root of the callee's identifier chain); guessing it from
+	// the printed form of the path picks the wrong level when the same field
+	// name repeats (x[0].Kids[1].Kids[2].Kids[0]).
 	key := node.Left.String()
-	if id := callReceiver(node.Callee); id != nil {
-		// a method call looks its receiver up under the name the parser gave it
+	if id := calleeRoot(node.Callee); id != nil {
 		key = id.Value
-	} else if strings.Contains(key, ".") {
-		ggg := strings.Split(key, ".")
-		callee := node.Callee.String()
-
-		if !strings.Contains(callee, key) {
-			for {
-				if len(ggg) >= 2 {
-					ggg = ggg[1:]
-				} else {
-					key = ggg[0]
-					break
-				}
-
-				if strings.Contains(callee, strings.Join(ggg, ".")) {
-					key = strings.Join(ggg, ".")
-					break
-				}
-			}
-		}
 	}
 
 	c.ctx.Set(key, rv.Interface())
@@ -1234,20 +1213,24 @@ func (c *compiler) evalIndexCallee(rv reflect.Value, node *ast.IndexExpression) 
 	return vvs, nil
 }
 
-// callReceiver is the plain identifier a method call uses as its receiver, if
-// node is such a call.
-func callReceiver(node ast.Expression) *ast.Identifier {
-	ce, ok := node.(*ast.CallExpression)
-	if !ok {
+// calleeRoot is the identifier at the root of the path that hangs off an
+// indexed element: the name that path looks the element up under.
+func calleeRoot(node ast.Expression) *ast.Identifier {
+	var id *ast.Identifier
+
+	switch cc := node.(type) {
+	case *ast.Identifier:
+		id = cc
+	case *ast.IndexExpression:
+		id, _ = cc.Left.(*ast.Identifier)
+	case *ast.CallExpression:
+		id, _ = cc.Callee.(*ast.Identifier)
+	}
+
+	if id == nil {
 		return nil
 	}
 
-	id, ok := ce.Callee.(*ast.Identifier)
-	if !ok || id == nil {
-		return nil
-	}
-
-	// the root of the receiver chain (x[i].a.b.M(): the name x[i] is bound to)
 	for id.Callee != nil {
 		id = id.Callee
 	}
